@@ -141,6 +141,13 @@ func runCheck(ch Check, cx *Ctx) int {
 	cx.known = map[string]int{}
 	cx.extra = map[string]int64{}
 	kf := loadKnownFindings(ch.ID())
+	if run.RepoDir() == "/repo" {
+		// replay files of earlier runs of this property are stale
+		old, _ := filepath.Glob(filepath.Join(run.VerifDir(), "replay", ch.ID()+"-*.json"))
+		for _, f := range old {
+			os.Remove(f)
+		}
+	}
 
 	for chunk := 0; ; chunk++ {
 		items := ch.Generate(cx, chunk)
